@@ -42,6 +42,7 @@ def main() -> int:
         ctx.res.inconclusive.append("harness exception: " + traceback.format_exc()[-1500:])
     ctx.res.sets.setdefault("library_lines_reached", set()).update(linereach.stop())
     ctx.res.count("advisory/library_log_records_formatted", logcfg.RECORDS["n"])
+    ctx.res.count(f"interpreter/shards-with-optimize={sys.flags.optimize}")
     rot = sys.modules.get("vf.sim.rotation")
     for k, n in (rot.VALUE_COUNTS.items() if rot is not None else ()):
         ctx.res.count(f"harness-rotation/{k}", n)
